@@ -13,6 +13,8 @@
                          `offset >= <start offset of that section>` (sibling agreement between classifier and count helpers)
   C11.f pointer-free     (the C09.e automaton on delete) the splice of a deletion happens only where the packet is known to hold no
                          compression pointers: otherwise pointers of the survivors into the moved bytes designate something else
+  C11.g cache            (the C08.b automaton on delete) every successful deletion resets the cached question: an emptied question section
+                         must read as absent through every getter, the cached ones included
   C11.c termination      = C03.a: advances and rrs_left decrements are paired on every path (rrs_left strictly decreases
                          between re-initialisations, each of which follows a count decrement)
 
@@ -327,6 +329,10 @@ def run(ctx):
         from rules import C10
         from analysis.pkt import PacketEvents
         C10.tombstone_rule(ctx, facts, cfg, PacketEvents(facts), 'C11.d', (('rr_iterator::TypedIterable::delete', False),), 2)
+        # ---------------------------- C11.g ------------------------------------
+        from rules import C08
+        C08.cache_rule_for(ctx, facts, cfg, PacketEvents(facts), 'C11.g', facts.inst_keys('rr_iterator::TypedIterable::delete'),
+                           'after the question has been deleted (an emptied section reads as absent) question(), question_raw() and qtype_qclass() would still answer with it', floor=2)
         # ---------------------------- C11.b ------------------------------------
         rid = 'C11.b'
         n = 0
